@@ -34,8 +34,19 @@ def short_adt(a):
     return a.split("::")[-1]
 
 
+def _exact_det(px, py, qx, qy, rx, ry):
+    """the determinant of the orientation test in exact rational arithmetic (the robust predicate's sign is the exact sign, also where a
+    float evaluation of the same expression rounds it away)"""
+    from fractions import Fraction
+    try:
+        px, py, qx, qy, rx, ry = (Fraction(v) for v in (px, py, qx, qy, rx, ry))
+    except (ValueError, OverflowError, TypeError):          # NaN / infinite witnesses: plain float evaluation
+        return (qx - px) * (ry - qy) - (qy - py) * (rx - qx)
+    return (qx - px) * (ry - qy) - (qy - py) * (rx - qx)
+
+
 def orient(p, q, r):
-    v = (q["x"] - p["x"]) * (r["y"] - q["y"]) - (q["y"] - p["y"]) * (r["x"] - q["x"])
+    v = _exact_det(p["x"], p["y"], q["x"], q["y"], r["x"], r["y"])
     return "CounterClockwise" if v > 0 else "Clockwise" if v < 0 else "Collinear"
 
 
@@ -174,7 +185,8 @@ class Evaluator:
                     pts.append((v[0], v[1]))
             (px, py), (qx, qy), (rx, ry) = pts
             # robust::orient2d returns a value whose sign is that of the exact determinant (positive = counter-clockwise)
-            return (qx - px) * (ry - qy) - (qy - py) * (rx - qx)
+            v = _exact_det(px, py, qx, qy, rx, ry)
+            return 1.0 if v > 0 else -1.0 if v < 0 else 0.0
         if path.endswith("NumCast>::from") or path == "num_traits::cast::NumCast::from":
             return Enum("core::option::Option", "Some", [self.ev(t[2][0])])
         if path.endswith("Kernel::orient2d") or path.endswith("::orient2d"):
